@@ -641,6 +641,7 @@ func pemBundles(r *ev.Run, pool [][]byte) {
 			continue
 		}
 		k := c.Rand.Intn(6)
+		withHeaders := 0
 		var buf bytes.Buffer
 		var want [][]byte
 		lead := []string{"", "Bag Attributes\n  friendlyName: x\n", "subject=CN=foo\nissuer=CN=bar\n", "\n\n  \n"}[c.Rand.Intn(4)]
@@ -655,7 +656,13 @@ func pemBundles(r *ev.Run, pool [][]byte) {
 				}
 			}
 			want = append(want, d)
-			pem.Encode(&buf, &pem.Block{Type: "CERTIFICATE", Bytes: d})
+			blk := &pem.Block{Type: "CERTIFICATE", Bytes: d}
+			if c.Rand.Intn(5) == 0 {
+				// a certificate block may carry RFC 1421 style headers (OpenSSL bag attributes exported that way, proxies' annotations)
+				blk.Headers = map[string]string{"friendlyName": "slot 9a", "localKeyID": "01 02"}
+				withHeaders++
+			}
+			pem.Encode(&buf, blk)
 			if c.Rand.Intn(3) == 0 {
 				buf.WriteString("\n")
 			}
@@ -663,7 +670,7 @@ func pemBundles(r *ev.Run, pool [][]byte) {
 		tail := []string{"", "\n", "  \n\t\r\n", "\n\n\n"}[c.Rand.Intn(4)]
 		buf.WriteString(tail)
 		data := buf.Bytes()
-		rec := map[string]any{"certs": len(want), "lead": lead, "tail": tail, "bytes": len(data)}
+		rec := map[string]any{"certs": len(want), "blocks_with_headers": withHeaders, "lead": lead, "tail": tail, "bytes": len(data)}
 		r.Eval(1)
 		var got []*x509.Certificate
 		var err error
